@@ -75,7 +75,7 @@ def run_harness(h: Harness) -> HarnessResult:
             ctx.fail(f"{h.name}::uncaught-exception", detail=repr(e.exc))
         # vacuity guard: the hypotheses of this completed path must be satisfiable (unknown counts as satisfiable)
         import z3
-        ctx.solver.set("timeout", 3000)
+        ctx.solver.set("timeout", 1000)
         ctx.nonvacuous = ctx._check() != z3.unsat
 
     try:
